@@ -12,6 +12,7 @@
 //!
 //! @funcs scripts::preprocess_text, ScriptType::from(u32), unicode::mcc::{sort_by_modified_combining_class, modified_combining_class}, scripts::arabic::{reorder_marks, reorder_marks_shadda, reorder_marks_other_combining, is_modifier_combining_mark}, <[char]>::split_mut
 //! @stub core::slice::sort::stable::sort -> insertion sort by the same comparison (stable), stated contract of slice::sort_by / sort_by_key
+//! @stub unicode_canonical_combining_class::get_canonical_combining_class (third-party two-level table, 10 min without an answer when indexed by a symbolic char) -> the Unicode classes of the 8-character alphabet used here, 0 for anything else
 //! @out the contents of the modified-combining-class table (the property does not pin them; the crate's own modified_combining_class is used as the class function of the oracle), std's sort, runs of more than 3 characters, the exact order the Arabic shadda / modifier-mark rules produce, the Thai/Lao SARA AM split, Indic and Khmer decompositions, the Bengali and Kannada special cases and dotted-circle insertion (Vec::insert on a symbolic condition: not attempted in the time available)
 
 use allsorts::scripts::preprocess_text;
@@ -35,6 +36,39 @@ pub fn stub_stable_sort<T, F: FnMut(&T, &T) -> bool, BufT: core::slice::sort::st
 }
 
 const N: usize = 3;
+
+/// The alphabet the harnesses draw from: a base letter (fast path below U+0300), a base above it,
+/// and marks of six different canonical classes (two of them equal, for stability).
+const ALPHABET: [char; 8] = [
+    'a',        // base, fast path
+    '\u{0628}', // ARABIC LETTER BEH, base (class 0 through the table)
+    '\u{0301}', // COMBINING ACUTE ACCENT, 230
+    '\u{0300}', // COMBINING GRAVE ACCENT, 230
+    '\u{0323}', // COMBINING DOT BELOW, 220
+    '\u{0651}', // ARABIC SHADDA, 33
+    '\u{064B}', // ARABIC FATHATAN, 27
+    '\u{0E38}', // THAI CHARACTER SARA U, 103
+];
+
+/// Replacement for the third-party class table, restricted to `ALPHABET` (values from
+/// UnicodeData.txt).
+pub fn stub_ccc(c: char) -> unicode_canonical_combining_class::CanonicalCombiningClass {
+    use unicode_canonical_combining_class::CanonicalCombiningClass as C;
+    match c {
+        '\u{0301}' | '\u{0300}' => C::Above,
+        '\u{0323}' => C::Below,
+        '\u{0651}' => C::CCC33,
+        '\u{064B}' => C::CCC27,
+        '\u{0E38}' => C::CCC103,
+        _ => C::NotReordered,
+    }
+}
+
+fn any_text() -> [char; N] {
+    let k: [usize; N] = kani::any();
+    kani::assume(k[0] < 8 && k[1] < 8 && k[2] < 8);
+    [ALPHABET[k[0]], ALPHABET[k[1]], ALPHABET[k[2]]]
+}
 
 fn is_base(c: char) -> bool {
     modified_combining_class(c) == ModifiedCombiningClass::NotReordered
@@ -70,7 +104,7 @@ fn reference(input: [char; N]) -> [char; N] {
 }
 
 fn sorted_mark_runs(script: u32) {
-    let input: [char; N] = kani::any();
+    let input = any_text();
     let mut cs = vec![input[0], input[1], input[2]];
     preprocess_text(&mut cs, script);
     assert!(cs.len() == N, "length unchanged");
@@ -89,39 +123,43 @@ fn sorted_mark_runs(script: u32) {
 /// Scripts without decompositions: the result is the input with each maximal run of combining
 /// marks sorted stably by modified combining class; characters of class "not reordered" keep
 /// their position and nothing moves across them.
-// @bound text of 3 characters, every char; script tag latn
+// @bound text of 3 characters drawn from an 8-character alphabet (2 bases, marks of classes 230, 230, 220, 33, 27, 103); script tag latn
 #[kani::proof]
 #[kani::unwind(6)]
 #[kani::stub(core::slice::sort::stable::sort, crate::c17::stub_stable_sort)]
+#[kani::stub(unicode_canonical_combining_class::get_canonical_combining_class, crate::c17::stub_ccc)]
 fn c17_latin_sorts_mark_runs() {
     sorted_mark_runs(tag::LATN);
 }
 
 /// Syriac takes the same path.
-// @bound text of 3 characters, every char; script tag syrc
+// @bound text of 3 characters drawn from an 8-character alphabet (2 bases, marks of classes 230, 230, 220, 33, 27, 103); script tag syrc
 #[kani::proof]
 #[kani::unwind(6)]
 #[kani::stub(core::slice::sort::stable::sort, crate::c17::stub_stable_sort)]
+#[kani::stub(unicode_canonical_combining_class::get_canonical_combining_class, crate::c17::stub_ccc)]
 fn c17_syriac_sorts_mark_runs() {
     sorted_mark_runs(tag::SYRC);
 }
 
 /// A tag the library does not know is treated like the default scripts.
-// @bound text of 3 characters, every char; script tag 'zzzz'
+// @bound text of 3 characters drawn from an 8-character alphabet (2 bases, marks of classes 230, 230, 220, 33, 27, 103); script tag 'zzzz'
 #[kani::proof]
 #[kani::unwind(6)]
 #[kani::stub(core::slice::sort::stable::sort, crate::c17::stub_stable_sort)]
+#[kani::stub(unicode_canonical_combining_class::get_canonical_combining_class, crate::c17::stub_ccc)]
 fn c17_unknown_script_sorts_mark_runs() {
     sorted_mark_runs(0x7A7A_7A7A);
 }
 
 /// Myanmar text is not preprocessed at all.
-// @bound text of 3 characters, every char; tag mymr
+// @bound text of 3 characters drawn from an 8-character alphabet (2 bases, marks of classes 230, 230, 220, 33, 27, 103); tag mymr
 #[kani::proof]
 #[kani::unwind(6)]
 #[kani::stub(core::slice::sort::stable::sort, crate::c17::stub_stable_sort)]
+#[kani::stub(unicode_canonical_combining_class::get_canonical_combining_class, crate::c17::stub_ccc)]
 fn c17_myanmar_untouched() {
-    let input: [char; N] = kani::any();
+    let input = any_text();
     let mut cs = vec![input[0], input[1], input[2]];
     preprocess_text(&mut cs, tag::MYMR);
     assert!(cs.len() == N && cs[0] == input[0] && cs[1] == input[1] && cs[2] == input[2]);
@@ -132,12 +170,13 @@ fn c17_myanmar_untouched() {
 /// Arabic (AMTRA): whatever order the shadda / modifier-mark rules choose, the result is a
 /// permutation of the input in which base characters keep their position and every mark stays
 /// inside its own run of marks.
-// @bound text of 3 characters, every char; tag arab
+// @bound text of 3 characters drawn from an 8-character alphabet (2 bases, marks of classes 230, 230, 220, 33, 27, 103); tag arab
 #[kani::proof]
 #[kani::unwind(6)]
 #[kani::stub(core::slice::sort::stable::sort, crate::c17::stub_stable_sort)]
+#[kani::stub(unicode_canonical_combining_class::get_canonical_combining_class, crate::c17::stub_ccc)]
 fn c17_arabic_marks_stay_in_their_run() {
-    let input: [char; N] = kani::any();
+    let input = any_text();
     let mut cs = vec![input[0], input[1], input[2]];
     preprocess_text(&mut cs, tag::ARAB);
     assert!(cs.len() == N, "length unchanged");
